@@ -624,7 +624,8 @@ fn check_dag(rep: &mut OracleReport, d: &[DNode]) {
         Err(e) => rep.fail("intern_eq_def", format!("dag={} err={}", desc(), err_kind(&e))),
     }
     // stream based, on the crate's own serialization
-    if ex.0 + ex.1 < 200_000 {
+    // node_to_bytes refuses outputs above 2,000,000 bytes (OutOfMemory): only serialize below that
+    if ex.0 + ex.1 < 200_000 && ex.0 + 6 * ex.1 + ex.2 < 2_000_000 {
         match node_to_bytes(&a, node) {
             Ok(b) => {
                 let mut c = Cursor::new(&b[..]);
@@ -662,6 +663,9 @@ fn check_dag(rep: &mut OracleReport, d: &[DNode]) {
             }
             Err(e) => rep.fail("stream_eq_def", format!("dag={} node_to_bytes err={}", desc(), err_kind(&e))),
         }
+    }
+    else {
+        rep.hit("too_big_to_serialize");
     }
     rep.sample(format!("{} -> {}", desc().chars().take(80).collect::<String>(), hex::encode(want)));
 }
